@@ -688,6 +688,19 @@ func genRemoteCase(r *Rng) []Op {
 		}
 		all = append(all, nested...)
 		pat = []string{"*/c/*.wsp", d1 + "*/c/f0.wsp", "*/*/f?.wsp"}[r.Intn(3)]
+		// the same two directories as items of a sum: their order is the order of the listing
+		it1 := "src/" + d1 + "/c/f0.wsp"
+		if len(nested) == 3 {
+			it1 += "+src/" + d1 + "/c/f1.wsp"
+		}
+		itemsNested := it1 + ">;src/" + d2 + "/c/f0.wsp>"
+		// (an item is a dotted name standing for a directory path: a directory with a dot in its
+		// own name cannot be an item)
+		if !strings.Contains(d1+d2, ".") {
+			for _, rm := range []string{"", " remote=1"} {
+				ops = append(ops, Op{fmt.Sprintf("cmd sum items=%s itempat=*/c srcpat=*.wsp header=0 archive=-1 from=0 until=0%s", itemsNested, rm), true})
+			}
+		}
 	}
 	sortByComponents(all)
 	for _, n := range all {
